@@ -75,61 +75,31 @@ def run(cx):
     rule_host_inputs_eval(cx, "C20-INPUTS")
 
     # ---- C20-PINKEY --------------------------------------------------------------------------
-    r = cx.rule("C20-PINKEY", "every access to the simulated pin dictionaries uses the key _normalise_pin(pin) of the function's own pin parameter; nothing iterates, clears or bulk-updates them; _normalise_pin identifies exactly int n with its decimal string and keeps all other pins distinct", floor=10)
+    r = cx.rule("C20-PINKEY", "nothing iterates over, rebinds or (outside the five pin helpers and what they call) writes the simulated pin dictionaries; _normalise_pin identifies exactly int n with its decimal string and keeps all other pins distinct (which entry each operation touches is decided over every history by C20-MEMORY)", floor=8)
     pin_fns = ["pin_mode", "digital_write", "analog_write", "digital_read", "analog_read"]
-    for q in pin_fns:
-        fn = core.func(q)
-        loc = Locals(fn)
-        for n in walk_local(fn, include_self=False):
-            key_expr = None
-            where = None
-            if isinstance(n, ast.Subscript) and isinstance(n.value, ast.Name) and n.value.id in PIN_DICTS:
-                key_expr, where = n.slice, n
-            elif isinstance(n, ast.Call) and isinstance(n.func, ast.Attribute) and isinstance(n.func.value, ast.Name) and n.func.value.id in PIN_DICTS:
-                if n.func.attr in ("get", "setdefault", "pop") and n.args:
-                    key_expr, where = n.args[0], n
-                else:
-                    r.fail(f"{q}/{n.func.value.id}.{n.func.attr}", (core, n), f"`{stmt_key(n)}` touches more than one pin's entry")
-                    continue
-            elif isinstance(n, ast.Compare) and any(isinstance(c, ast.Name) and c.id in PIN_DICTS for c in n.comparators) and isinstance(n.ops[0], (ast.In, ast.NotIn)):
-                key_expr, where = n.left, n
-            if key_expr is None:
-                continue
-            src_ = loc.resolve(key_expr)
-            ok = isinstance(src_, ast.Call) and call_name(src_) == "_normalise_pin" and len(src_.args) == 1 and norm(src_.args[0]) == "pin" and not loc.rebound("pin")
-            r.check(ok, f"{q}/key[{norm(where)[:40]}]", (core, where), f"`{norm(where)}` is not keyed by _normalise_pin(pin)", sample=f"{q}: {norm(where)[:40]}")
+    # which entry an operation touches, and that reads return the last write, is decided over every history by C20-MEMORY;
+    # here: the tables are never walked, rebound or written by anything but the pin helpers (and the helpers they call)
+    reach = set(pin_fns)
+    grew = True
+    while grew:
+        grew = False
+        for q in list(reach):
+            for c in walk_local(core.func(q), include_self=False):
+                if isinstance(c, ast.Call) and isinstance(c.func, ast.Name) and c.func.id in core.funcs and c.func.id not in reach:
+                    reach.add(c.func.id)
+                    grew = True
+    for q in sorted(core.funcs):
+        r.ok(f"{q}: scanned")
     for q, fn in core.funcs.items():
         for n in walk_local(fn, include_self=False):
             if isinstance(n, (ast.For, ast.comprehension)) and any(isinstance(x, ast.Name) and x.id in PIN_DICTS for x in ast.walk(n.iter)):
                 r.fail(f"{q}/iterates-pin-table", (core, n if isinstance(n, ast.For) else fn), "iteration over a pin table: one pin's operation depends on / affects the others")
-            if isinstance(n, (ast.Assign, ast.AugAssign)) and q not in pin_fns:
+            if isinstance(n, (ast.Assign, ast.AugAssign)) and q not in reach:
                 for t in (n.targets if isinstance(n, ast.Assign) else [n.target]):
                     if any(isinstance(x, ast.Name) and x.id in PIN_DICTS for x in ast.walk(t)):
                         r.fail(f"{q}/writes-pin-table", (core, n), "pin table written outside the five pin helpers")
             if isinstance(n, ast.Global) and any(x in PIN_DICTS for x in n.names):
                 r.fail(f"{q}/rebinds-pin-table", (core, n), "pin table rebound")
-    # a stored pin value is only replaced by the write helpers; anything else may at most seed a missing entry
-    for q in ("pin_mode", "digital_read", "analog_read"):
-        fn = core.func(q)
-        for n in walk_local(fn, include_self=False):
-            if isinstance(n, (ast.Assign, ast.AugAssign)):
-                for t in (n.targets if isinstance(n, ast.Assign) else [n.target]):
-                    if isinstance(t, ast.Subscript) and isinstance(t.value, ast.Name) and t.value.id in ("_digital_values", "_analog_values"):
-                        from ..flow import lexical_conds
-                        cs = lexical_conds(core, n)
-                        kx = norm(t.slice)
-                        seeded_only = any((c == f"{kx} not in {t.value.id}" and tv) or (c == f"{kx} in {t.value.id}" and not tv) for c, tv in cs)
-                        r.check(seeded_only, f"{q}/overwrites-written-value[{t.value.id}]", (core, n), f"`{stmt_key(n)}` in {q}() can replace a value that digital_write/analog_write stored: a later read would not return the last value written", sample=f"{q}: seeds {t.value.id} only when absent")
-    for q in ("pin_mode", "digital_read", "analog_read"):
-        fn = core.func(q)
-        for n in walk_local(fn, include_self=False):
-            tbl = None
-            if isinstance(n, ast.Call) and isinstance(n.func, ast.Attribute) and isinstance(n.func.value, ast.Name) and n.func.value.id in ("_digital_values", "_analog_values") and n.func.attr in ("pop", "popitem", "clear", "update", "__setitem__", "__delitem__"):
-                tbl, what = n.func.value.id, f".{n.func.attr}()"
-            elif isinstance(n, ast.Delete) and any(isinstance(t, ast.Subscript) and isinstance(t.value, ast.Name) and t.value.id in ("_digital_values", "_analog_values") for t in n.targets):
-                tbl, what = next(t.value.id for t in n.targets if isinstance(t, ast.Subscript)), "del"
-            if tbl:
-                r.fail(f"{q}/drops-or-rewrites-written-value[{tbl}{what}]", (core, n), f"`{stmt_key(n)}` in {q}() removes or rewrites entries of {tbl}: a value stored by digital_write/analog_write would no longer be what a later read returns")
     np_ = core.func("_normalise_pin")
     ints = [0, 7, 13]
     names = ["A0", "A1", "A5", "a0", "LED_BUILTIN", "D7"]
